@@ -412,6 +412,8 @@ class Generator
         }
         if (k == 11 && !allow_involute_)
             k = 0;
+        if (composite_mode_ && k == 6)
+            k = 0;  // parallelepiped -> box
         std::shared_ptr<Prim> p;
         double q = s / std::sqrt(3.0);
         switch (k)
@@ -438,6 +440,19 @@ class Generator
                 break;
             }
             case 4:
+                if (composite_mode_ && 0.3 * s < 0.5)
+                {
+                    p = std::make_shared<PSphere>(next_label("sph"), size(0.4 * s, s));
+                    break;
+                }
+                if (!composite_mode_ && rng_.coin(0.3))
+                {
+                    // small ellipsoid on its own (radii of a few hundredths of a length unit)
+                    p = std::make_shared<PEllipsoid>(
+                        next_label("ell"),
+                        Vec3{{rng_.uniform(0.008, 0.09), rng_.uniform(0.008, 0.09), rng_.uniform(0.008, 0.09)}});
+                    break;
+                }
                 p = std::make_shared<PEllipsoid>(
                     next_label("ell"), Vec3{{size(0.3 * s, s), size(0.3 * s, s), size(0.3 * s, s)}});
                 break;
@@ -544,7 +559,7 @@ class Generator
             if (v < 0.3)
                 twist = 0;
             else if (v < 0.55)
-                twist = std::pow(10.0, rng_.uniform(-7, -3));  // nearly planar faces
+                twist = composite_mode_ ? 0.0 : std::pow(10.0, rng_.uniform(-7, -3));  // nearly planar faces
             else
                 twist = rng_.uniform(0.02, 0.5);
             if (rng_.coin())
@@ -741,6 +756,44 @@ class Generator
                 j->kids = {body, w};
                 return place(j, c, allow_general);
             }
+            if (allow_general && rng_.coin(0.08))
+            {
+                // Mirror-image pair: the same primitive rotated by +theta and -theta about one
+                // axis through c (a stereo "X"/"V").  Their quadrics differ ONLY in the cross
+                // terms (cylinders, cones) or are reflections of each other's plane sets; this
+                // is the input on which soft surface de-duplication must keep them apart.
+                auto prim = gen_prim(0.8 * s, int(rng_.integer(2, 3)));
+                int ax = int(rng_.integer(0, 2));
+                int a1 = (ax + 1) % 3, a2 = (ax + 2) % 3;
+                double th = rng_.coin(0.3) ? 0.7853981633974483 : rng_.uniform(0.1, 1.3);
+                bool centre_on_axis = rng_.coin(0.6);
+                auto j = std::make_shared<NJoin>(next_label("mirror"), rng_.coin(0.6) ? NJoin::Op::any : NJoin::Op::rdv);
+                for (int sgn = 1; sgn >= -1; sgn -= 2)
+                {
+                    Xf x;
+                    x.kind = XfKind::rotgen;
+                    double cs = std::cos(th), sn = std::sin(sgn * th);
+                    for (int r = 0; r < 3; ++r)
+                        for (int q2 = 0; q2 < 3; ++q2)
+                            x.R[r][q2] = (r == q2) ? 1.0 : 0.0;
+                    x.R[a1][a1] = cs;
+                    x.R[a1][a2] = -sn;
+                    x.R[a2][a1] = sn;
+                    x.R[a2][a2] = cs;
+                    // centre on the rotation axis of the unit frame (half of the time): then
+                    // the two quadrics have identical second-order diagonal, first-order and
+                    // constant terms and differ only in the sign of one cross term
+                    x.t = c;
+                    if (centre_on_axis)
+                    {
+                        x.t[a1] = 0;
+                        x.t[a2] = 0;
+                    }
+                    j->kids.push_back(std::make_shared<NTransformed>(prim, x));
+                    j->inside.push_back(sgn == 1 ? true : rng_.coin(0.6));
+                }
+                return j;
+            }
             return place(gen_prim(s), c, allow_general);
         }
         int op = int(rng_.integer(0, 3));
@@ -796,7 +849,7 @@ class Generator
             // shapes whose exterior bounding box stays finite under a general rotation
             if (u < 0.5)
                 p = std::make_shared<PSphere>(next_label("bsph"), size(0.56 * R, 0.98 * R));
-            else if (u < 0.8)
+            else if (u < 0.8 && !(composite_mode_ && 0.56 * R < 0.5))
                 p = std::make_shared<PEllipsoid>(
                     next_label("bell"),
                     Vec3{{size(0.56 * R, 0.98 * R), size(0.56 * R, 0.98 * R), size(0.56 * R, 0.98 * R)}});
@@ -823,7 +876,7 @@ class Generator
             p = std::make_shared<PSphere>(next_label("bsph"), size(0.56 * R, 0.98 * R));
         else if (u < 0.65)
             p = std::make_shared<PCyl>(next_label("bcyl"), size(0.55 * R, 0.7 * R), size(0.55 * R, 0.7 * R));
-        else if (u < 0.75)
+        else if (u < 0.75 && !(composite_mode_ && 0.56 * R < 0.5))
             p = std::make_shared<PEllipsoid>(
                 next_label("bell"),
                 Vec3{{size(0.56 * R, 0.98 * R), size(0.56 * R, 0.98 * R), size(0.56 * R, 0.98 * R)}});
@@ -851,6 +904,8 @@ class Generator
 
     std::shared_ptr<UnitModel> gen_unit(int level, int max_level, double R, bool rotation_safe, bool single = false)
     {
+        if (level == 0)
+            composite_mode_ = !single;
         auto u = std::make_shared<UnitModel>();
         u->label = next_label(level == 0 ? "global" : "unit");
         u->R = R;
@@ -992,6 +1047,11 @@ class Generator
     double grid_ = 0;
     double parent_grid_ = 0;
     bool allow_involute_ = false;
+    // Multi-object models keep out the three inputs with known upstream construction defects
+    // (small ellipsoids, parallelepipeds, nearly untwisted GenPrism faces): there the culprit
+    // cannot be attributed reliably, so they are exercised only in single-primitive models
+    // where the violation key names the primitive (known_findings.json lists exactly those).
+    bool composite_mode_ = false;
     int counter_ = 0;
 };
 
